@@ -8,9 +8,10 @@ import json, os, re, sys
 repo, build = sys.argv[1], sys.argv[2]
 src = os.path.join(repo, "node/cmd/spy/spy.go")
 text = open(src).read()
-locks = len(re.findall(r"\bs\.subsMu\.Lock\(\)", text))
-unlocks = len(re.findall(r"\bs\.subsMu\.Unlock\(\)", text))
-other = len(re.findall(r"subsMu", text)) - locks - unlocks
+code = re.sub(r"//[^\n]*", "", text)  # mentions in comments do not count
+locks = len(re.findall(r"\bs\.subsMu\.Lock\(\)", code))
+unlocks = len(re.findall(r"\bs\.subsMu\.Unlock\(\)", code))
+other = len(re.findall(r"subsMu", code)) - locks - unlocks
 if locks < 1 or unlocks < 1 or other != 1:  # the one remaining mention is the field declaration
     sys.stderr.write("spysim overlay: unexpected use of subsMu in spy.go (%d Lock, %d Unlock, %d other)\n" % (locks, unlocks, other))
     sys.exit(1)
